@@ -203,6 +203,7 @@ def finish_check(pid, tier, level, agg, unit_bins, t_start, rule, assumptions, e
     seed = int(os.environ.get('VERIF_SEED', '0') or 0)
     os.makedirs(os.path.join(ROOT, 'evidence'), exist_ok=True)
     rdir = os.path.join(ROOT, 'replays', pid)
+    shutil.rmtree(rdir, ignore_errors=True)
     os.makedirs(rdir, exist_ok=True)
     new_viol = []
     known_hits = {}
